@@ -53,7 +53,11 @@ inductive PyVal where
   /-- a Python `set`; the list is the iteration order (`list(obj)`), an
       enumeration without Python-equal duplicates -/
   | set (xs : List PyVal)
-  /-- `np.ndarray`: `str(dtype)`, `shape`, `tolist()` -/
+  /-- `np.ndarray`: `str(dtype)`, `shape`, `tolist()`.  This is the *logical*
+      content of the array (index ↦ element); its memory layout (C / Fortran
+      order, transposed, strided, reversed or broadcast view) is not part of the
+      value — the code must treat all layouts of the same content alike, which the
+      harness checks by producing every multi-dimensional array in each layout. -/
   | ndarray (dtype : String) (shape : List Nat) (data : PyVal)
   | dict (kvs : List (String × PyVal))
   deriving Repr, Inhabited
